@@ -11,8 +11,9 @@ import (
 
 func init() {
 	register(&Check{
-		ID:    "C04",
-		Level: "exploration",
+		ID:        "C04",
+		DeepQuick: true,
+		Level:     "exploration",
 		Rule: "every (operation method, operand tuple) of the C01 universe, with operands known / null / unknown / DynamicVal, x every placement of marks (root subsets of {M1,M2} on each operand, plus one nested member marked M3), " +
 			"every (value, target type) pair of the conversion universe x mark placements, every stdlib function x argument list x mark placements, and set constructors on marked members; " +
 			"each case is run marked and with all marks stripped; distinct by operation and marked operand GoStrings; non-trivial = at least one mark placed",
